@@ -142,6 +142,8 @@ def worker_main(prop, name, tier, outfile):
     sys.setrecursionlimit(100000)
     t0 = time.time()
     from . import core
+    if os.environ.get("SYMX_DEADLINE"):
+        core.DEADLINE[0] = t0 + float(os.environ["SYMX_DEADLINE"])
     obs = {o.name: o for o in load_checks(prop)}
     ob = obs[name]
     rep = Report(ob, tier)
@@ -229,7 +231,7 @@ def run_property(prop, tier, jobs=None, only=None):
     pending = list(obs)
     running = []
     results = {}
-    default_to = 900 if tier == "quick" else 7200
+    default_to = 600 if tier == "quick" else 7200
     while pending or running:
         while pending and len(running) < jobs:
             o = pending.pop(0)
@@ -238,11 +240,12 @@ def run_property(prop, tier, jobs=None, only=None):
             env = dict(os.environ)
             env["PYTHONPATH"] = VERIF
             env["PYTHONHASHSEED"] = "0"
-            p = subprocess.Popen([PY, os.path.join(VERIF, "run.py"), "--worker", prop, o.name, tier, out],
-                                 stdout=log, stderr=subprocess.STDOUT, env=env, cwd=VERIF)
             to = o.timeout or default_to
             if tier == "thorough" and o.timeout:
                 to = o.timeout * 4
+            env["SYMX_DEADLINE"] = str(int(to * 0.8))
+            p = subprocess.Popen([PY, os.path.join(VERIF, "run.py"), "--worker", prop, o.name, tier, out],
+                                 stdout=log, stderr=subprocess.STDOUT, env=env, cwd=VERIF)
             running.append((o, p, time.time(), out, log, to))
         time.sleep(0.05)
         still = []
@@ -402,6 +405,8 @@ def run_property(prop, tier, jobs=None, only=None):
         pass
     except FileNotFoundError:
         pass
+    except Exception as e:
+        print("EVIDENCE-INVALID %s" % (str(e).splitlines()[0],))
     # clean work dir
     try:
         import shutil
